@@ -59,7 +59,10 @@ public:
 int check_main(int argc, char **argv, Engine &engine);
 
 // helpers for engines
-std::string scratch_dir(); // per-process scratch directory (created)
+std::string scratch_dir();
+// memcheck (VERIF_MODE=valgrind): mark before a run, ask afterwards
+void valgrind_mark();
+long valgrind_report(std::string &text); // per-process scratch directory (created)
 double wall_now();
 
 } // namespace detsim
